@@ -24,6 +24,31 @@ func containsReturn(n ast.Node) bool {
 	return found
 }
 
+// containsBranch: the node contains a break / continue / goto / fallthrough that is not enclosed in a nested loop,
+// switch or select of its own (those bind their own break; a `continue` inside a nested loop belongs to that loop).
+func containsBranch(n ast.Node) bool {
+	found := false
+	ast.Inspect(n, func(m ast.Node) bool {
+		switch x := m.(type) {
+		case *ast.ForStmt, *ast.RangeStmt, *ast.FuncLit:
+			if m != n {
+				return false
+			}
+		case *ast.SwitchStmt, *ast.TypeSwitchStmt, *ast.SelectStmt:
+			if m != n {
+				// a break in there belongs to that statement; continue / goto would not, but those forms are not
+				// translated by pureIf anyway (unsupported statement)
+				return false
+			}
+		case *ast.BranchStmt:
+			_ = x
+			found = true
+		}
+		return !found
+	})
+	return found
+}
+
 func containsPanic(n ast.Node) bool {
 	found := false
 	ast.Inspect(n, func(m ast.Node) bool {
@@ -82,6 +107,11 @@ func pureTuple(vars []string) string {
 
 func (env *Env) pureIf(x *ast.IfStmt, rest []ast.Stmt, ind string) (string, error) {
 	vars := env.assigned(x)
+	if containsBranch(x) {
+		// added for C06: `break` / `continue` / `goto` change the control flow of the enclosing loop; dropping or
+		// flattening such an if would silently change the meaning of the translated code
+		return "", fmt.Errorf("if statement with break/continue/goto outside a control-aware translation")
+	}
 	if len(vars) == 0 {
 		// no effect on modelled state
 		return env.block(rest, ind)
